@@ -4,12 +4,14 @@
 from __future__ import annotations
 
 import math
+import zlib
 
 import torch
 
+from .core import MachineryError
 from .aggsym_common import (EPS, F64, NORM_EPS, PE_NORM, ROSTER, Acc, build, call, cond_of, fmt, int_kernel,
-                            ld, maxdiff, mgda_gap, norm_eps_side, pad_index, present, rat_vec_equal, ref_of,
-                            scaled_sides, seed_of, split_padded)
+                            ld, maxdiff, mgda_gap, narrow_of, norm_eps_side, present, presented, rat_vec_equal,
+                            ref_of, scaled_sides, seed_of, split_padded)
 
 REG_LADDER = [1e-2, 1e-4, 1e-6, 1e-8, 1e-10, 1e-12]
 NORM_VARIANTS = [1e-4, 1e-2, 1e-6]
@@ -156,6 +158,69 @@ def one_object_histories(acc: Acc, job: dict, e: int, wide: bool) -> None:
                 done.append(s["rp"])
 
 
+NEAR_MAX = {"float64": (torch.float64, 1023, 2.0 ** -52), "float32": (torch.float32, 127, 2.0 ** -23)}
+FIXED_W = {"mean": "Mean", "sum": "Sum", "constP": "Constant(P)", "constW": "Constant(W)", "constN": "Constant(P/sum P)"}
+
+
+def near_max(acc: Acc, job: dict) -> None:
+    """C10 on matrices whose entries are next to the largest finite float of the dtype, for exactly those fixed-weight
+    aggregators for which the model proves that no intermediate of w @ J can leave the range of the entries
+    (spec NearMaxLaw: sum |w_i| <= 1; the flags are exported per scenario, nothing is decided by name here).
+    The matrix is J 2^e with e chosen so that the largest |entry| lies in [max/2, max): every sum of two such
+    entries of the same sign overflows, the value w @ J does not.  float64: the model's rational by value;
+    float32: within 64 eps32 4 m^2 max|J| of it (in units of the lattice)."""
+    import torchjd.aggregation as A
+    pid, scns, seed0, only = job["pid"], job["scn"], job["seed"], job.get("only")
+    for s in scns:
+        if s["maxabs"] == 0 or s["den"] != 1:
+            acc.count("skipped:near_max_zero_matrix")
+            continue
+        m = s["m"]
+        gkey = "rp=" + ",".join(map(str, s["rp"]))
+        for dname, (dt, emax, eps) in NEAR_MAX.items():
+            e = emax - (s["maxabs"].bit_length() - 1)
+            if job.get("clause") == "near-max" and job["scales"] != [e]:
+                continue
+            M = torch.tensor([[math.ldexp(v, e) for v in row] for row in s["J"]], dtype=dt)
+            if not bool(M.isfinite().all()) or float(M.abs().max()) < math.ldexp(1.0, emax):
+                raise MachineryError(f"near-max matrix of instance {s['id']} ({dname}) is not in [max/2, max)")
+            for key, label in FIXED_W.items():
+                vname = f"{label}@near-max:{dname}"
+                if only and only != vname:
+                    continue
+                if not s["nearmax"][key]:
+                    acc.count("skipped:near_max_partial_sums_not_bounded_by_the_model:" + key)
+                    continue
+                wv = {"constP": s["P"], "constW": s["W"], "constN": s["P"]}.get(key)
+                if key == "mean":
+                    agg = A.Mean()
+                elif key == "sum":
+                    agg = A.Sum()
+                else:
+                    wt = torch.tensor(wv, dtype=dt)
+                    agg = A.Constant(wt / wt.sum() if key == "constN" else wt)
+                x = call(agg, M, seed0)
+                acc.evals += 1
+                acc.count("near_max_cases:" + dname)
+                expected = s["exp"][key]
+                if isinstance(x, str):
+                    ok, got = False, x
+                elif dname == "float64":
+                    ok, got = rat_vec_equal(x, expected, e)
+                else:
+                    tol = 64 * eps * 4 * m * m * s["maxabs"]
+                    got = [math.ldexp(v, -e) if math.isfinite(v) else v for v in x.double().tolist()]
+                    ok = len(got) == len(expected) and all(abs(g - q[0] / q[1]) <= tol for g, q in zip(got, expected))
+                if not ok:
+                    _report(acc, pid, vname, s, e, gkey, "near-max",
+                            f"{label} ({dname}) on the row-permuted instance {s['id']} ({gkey}, P={s['P']}, W={s['W']}) times 2^{e} "
+                            f"(largest |entry| {float(M.abs().max()):.4g}, finite) returned {got} (in units of 2^{e}), the "
+                            f"order-independent value is {expected}; the weights have sum |w_i| <= 1, no partial sum of w @ J "
+                            f"can exceed the largest entry", {"seed": seed0})
+                if s["rp"] != sorted(s["rp"]):
+                    acc.nontriv.append((s["id"], gkey, "near-max", dname))
+
+
 def eval_rows(job: dict):
     """C10: A_{pi P}(pi J) = A_P(J)."""
     acc = Acc()
@@ -163,6 +228,10 @@ def eval_rows(job: dict):
     only = job.get("only")
     s0 = scns[0]
     cls, m = s0["cls"], s0["m"]
+    if not job.get("cagrad") or job.get("clause") == "near-max":
+        near_max(acc, job)
+    if job.get("clause") == "near-max":
+        return acc.as_tuple()
     for e in scales:
         J0t = ld(s0["J0"], e)
         if job.get("histories", True) and (not job.get("clause") or job.get("clause") == "one-object"):
@@ -217,6 +286,40 @@ def eval_rows(job: dict):
 # ------------------------------------------------------------------------------------------ C08
 
 
+def _store(stores: dict, kind: str, shape: tuple) -> torch.Tensor:
+    """The storage cells of one job ("the pre-allocated Jacobian buffers of a training loop"), one per shape:
+    buf = a contiguous tensor; big = a larger tensor, view = ONE strided view object of its interior."""
+    m, w = shape
+    if ("buf", shape) not in stores:
+        stores["buf", shape] = torch.empty(m, w, dtype=F64)
+        stores["big", shape] = torch.full((m + 2, w + 3), float("nan"), dtype=F64)
+        stores["view", shape] = stores["big", shape][1:m + 1, 2:w + 2]
+    if kind == "newview":
+        return stores["big", shape][1:m + 1, 2:w + 2]           # a new view object of the same region
+    return stores[kind, shape]
+
+
+def history_calls(acc: Acc, stores: dict, ah, plan: list, Jt: torch.Tensor, Ot: torch.Tensor, seed: int):
+    """Execute one plan of the model (spec HistPlans) with the ONE aggregator object `ah`: every step writes its
+    content where its presentation says and calls ah on that tensor.  Returns [(step index, step, output)] for the
+    steps whose content is "this" (the transformed matrix of the scenario); the calls on "other" only make history."""
+    out = []
+    shape = tuple(Jt.shape)
+    for k, st in enumerate(plan):
+        content = Jt if st["c"] == "this" else Ot
+        if st["p"] == "fresh":
+            T = content.clone()
+        else:
+            T = _store(stores, {"refill": "buf"}.get(st["p"], st["p"]), shape)
+            T.copy_(content)                                     # in place: same tensor object, same storage
+        y = call(ah, T, seed)
+        acc.evals += 1
+        acc.count("history_calls:" + st["p"])
+        if st["c"] == "this":
+            out.append((k, st, y, T))
+    return out
+
+
 def eval_cols(job: dict):
     """C08: row span, A(JQ) = A(J)Q, column permutations, zero columns."""
     acc = Acc()
@@ -224,18 +327,27 @@ def eval_cols(job: dict):
     only = job.get("only")
     s0 = scns[0]
     cls, m = s0["cls"], s0["m"]
+    stores: dict = {}                       # the storage cells and the long-lived aggregator objects of this job
     for e in scales:
         J0t = ld(s0["J0"], e)
         cache: dict = {}
         for s in scns:
-            # PadZero(k, layout): the k all-zero columns are materialised only here (positions from the model)
-            padded = s["pad"]["cnt"] > 0
+            # PadZero / WideTo: the presentation (4^wk copies of every column, all-zero columns) is materialised only
+            # here (positions recomputed and cross-checked with the model's)
+            padded = presented(s)
+            wk = s["pad"].get("wk", 0)
             Jt = present(ld(s["J"], e, s["den"]), s)
             Qt = present(torch.tensor(s["Q"], dtype=F64) / s["den"], s)
             gkey = "Q=" + ";".join(",".join(map(str, row)) for row in s["Q"]) + f"/{s['den']}" + \
-                   (f";pad={s['pad']['cnt']}{s['pad']['lay']}" if padded else "")
+                   (f";pad={s['pad']['cnt']}{s['pad']['lay']}" if s["pad"]["cnt"] else "") + (f";wide=4^{wk}" if wk else "")
             kern = int_kernel(s["J"])
             ident = s["steps"] == 0
+            # histories: ONE aggregator object per configuration and ONE storage for the whole job; the plan exported
+            # with the scenario is executed at one scale of the ladder (which one rotates with the scenario)
+            hist_here = job.get("hist_all") or e == scales[zlib.crc32(gkey.encode()) % len(scales)]
+            Ot = present(ld(s["other"], e, s["den"]), s) if hist_here else None
+            if padded:
+                acc.count(f"presented:{s['pad']['lay']}:{'wide' if wk else 'zeros'}")
             for r in ROSTER:
                 if not r["cols"] or (r["kind"] == "conic" and not job.get("cagrad")):
                     continue
@@ -257,16 +369,31 @@ def eval_cols(job: dict):
                         continue
                     w1 = w1_of(a1, Jt, seed)
                     ref = ref_of(cls, e, w1)
+                    hk = ("agg", vname, tuple(s["P"]), tuple(s["W"]))
+                    if hist_here and hk not in stores:
+                        stores[hk] = build(r["name"], s["P"], s["W"], extra)     # lives as long as the job
                     if r["kind"] == "exact":
                         # on the materialised columns the model's rational value; on the padded columns exactly 0
-                        xm, xpad = (x1, 0.0) if isinstance(x1, str) else split_padded(x1, s)
-                        ok = (not isinstance(x1, str)) and rat_vec_equal(xm, expected, e)[0] and xpad == 0.0
+                        def exact_ok(x):
+                            if isinstance(x, str):
+                                return False, x, 0.0
+                            xm_, xpad_ = split_padded(x, s)
+                            ok_, got_ = rat_vec_equal(xm_, expected, e, wk)
+                            return ok_ and xpad_ == 0.0, got_, xpad_
+                        ok, got, xpad = exact_ok(x1)
                         if not ok:
-                            got = x1 if isinstance(x1, str) else rat_vec_equal(xm, expected, e)[1]
                             _report(acc, pid, vname, s, e, gkey, "value",
                                     f"{vname} on instance {s['id']} transformed by {gkey} (scale 2^{e}) returned {got}"
                                     f"{f' and {xpad:.3e} on a padded zero column' if xpad else ''}; "
                                     f"A(J)Q is {expected}", {"seed": seed})
+                        if hist_here:
+                            for k, st, y, _ in history_calls(acc, stores, stores[hk], s["hist"], Jt, Ot, seed):
+                                ok, got, xpad = exact_ok(y)
+                                if not ok:
+                                    _report(acc, pid, vname, s, e, gkey, f"history:{st['p']}:{k}",
+                                            f"{vname}: ONE object, argument presented as '{st['p']}' (step {k + 1} of the plan "
+                                            f"{[(q['c'], q['p']) for q in s['hist']]}): on instance {s['id']} transformed by {gkey} "
+                                            f"(scale 2^{e}) it returned {got}; A(J)Q is {expected}", {"seed": seed, "hist": True})
                     else:
                         ck = vname
                         if ck not in cache:
@@ -278,6 +405,13 @@ def eval_cols(job: dict):
                         _compare(acc, pid, r, vname, s, e, gkey, seed, xe, x1, tol,
                                  "A(JQ) = A(J)Q" if not s["colperm"] else "column permutation / zero columns commute",
                                  J0t, Jt, a0, a1)
+                        if hist_here:
+                            # the reference xe comes from an independent object (a0) on an independent tensor (J0t)
+                            for k, st, y, T in history_calls(acc, stores, stores[hk], s["hist"], Jt, Ot, seed):
+                                _compare(acc, pid, r, vname, s, e, gkey + f";hist={st['p']}:{k}", seed, xe, y, tol,
+                                         f"A(JQ) = A(J)Q with ONE aggregator object and the argument presented as '{st['p']}' "
+                                         f"(step {k + 1} of the plan {[(q['c'], q['p']) for q in s['hist']]})",
+                                         J0t, T, a0, stores[hk])
                     if isinstance(x1, str):
                         continue
                     # (i) weighted aggregators: A(J) = weighting(J) @ J, and membership in the row span
@@ -303,6 +437,15 @@ def eval_cols(job: dict):
                                 _report(acc, pid, vname, s, e, gkey, "rowspan",
                                         f"{vname}: a padded all-zero column received the update {xpad:.3e} on instance {s['id']} "
                                         f"{gkey} scale 2^{e}", {"seed": seed})
+                            # wide: the difference of two copies of one column is a kernel vector too (|.|_1 = 2);
+                            # the lifted kernel vectors of the matrix act on the means of the copies
+                            xm, spread = narrow_of(xm, s)
+                            acc.dev("rowspan", spread, 2 * tolk)
+                            if not spread <= 2 * tolk:
+                                _report(acc, pid, vname, s, e, gkey, "rowspan",
+                                        f"{vname}: two copies of one column of the wide presentation received updates that differ by "
+                                        f"{spread:.3e} (in units of the narrow matrix) on instance {s['id']} {gkey} scale 2^{e}",
+                                        {"seed": seed})
                         for k in kern:
                             kt = torch.tensor(k, dtype=F64)
                             d = abs(float(xm @ kt))
@@ -354,12 +497,29 @@ def eval_scale(job: dict):
             walks = []
             if not (only and not only.startswith("UPGrad")):
                 hsel = (s["id"] + sum(c1) + 3 * sum(c2) + a + 2 * b) % 2
-                for ne in [NORM_VARIANTS[0], NORM_VARIANTS[1 + hsel]]:
+                # the norm_eps configurations of the model (spec NormEpsCfgs), as they are written in the constructor
+                # call: the default, one of the two others, and 0 - the int 0 or the float 0.0 - "no lower cut-off"
+                cfgs = s["normeps"]
+                pos = [(t, float(t)) for t in cfgs if float(t) > 0]
+                zer = [(t, 0.0 if "." in t else 0) for t in cfgs if float(t) == 0]
+                if [v for _, v in pos] != NORM_VARIANTS or len(zer) != 2:
+                    raise MachineryError(f"norm_eps configurations of the model {cfgs} are not the ones the replay knows")
+                for nes, ne in [pos[0], pos[1 + hsel], zer[(s["id"] + sum(c2) + a) % 2]]:
                     pref = s["P"] if (s["id"] + a + b) % 2 == 0 else None
+                    if ne == 0 and cls["trG"] == 0:
+                        acc.count("skipped:upgrad_norm_eps_zero_on_the_zero_matrix")      # sigma_max = 0 is not < 0: 0 / 0
+                        continue
                     # sigma_max of each of the three matrices against norm_eps, bracketed by the squared row norms
                     # c_i^2 |g_i|^2 (exact, spec RowBracket); `small`: a non-zero singular value certified BELOW norm_eps
-                    ss = [scaled_sides(cls, s["gd"], c, e, ne) for c in (xc, c1, c2)]
+                    # (norm_eps = 0: every non-zero matrix is above it at every scale, nothing can be below)
+                    ss = [scaled_sides(cls, s["gd"], c, e, ne) if ne > 0 else ("above", False) for c in (xc, c1, c2)]
                     sides = [x[0] for x in ss]
+                    if ne == 0:
+                        acc.count(f"ladder_triples_with_norm_eps_zero_{type(ne).__name__}")
+                        if (cls["lamFloor"] + 1) * 4.0 ** e * max(xc) ** 2 < 1e-4:        # sigma_max < 1e-2
+                            acc.count("ladder_triples_with_norm_eps_zero_on_matrices_of_small_scale")
+                        elif cls["lamFloor"] * 4.0 ** e * max(xc) ** 2 > 1e4:             # sigma_max > 1e2
+                            acc.count("ladder_triples_with_norm_eps_zero_on_matrices_of_large_scale")
                     if "ambiguous" in sides or len(set(sides)) > 1:
                         acc.count("skipped:upgrad_norm_eps_threshold_not_uniform")
                         continue
@@ -378,7 +538,7 @@ def eval_scale(job: dict):
                             outs[walk, reg] = [call(ag, M, seed) for M in Ms]
                             _LADDER_CALLS[0] += 3
                             acc.evals += 3
-                    walks.append((ne, pref, sides, straddle, outs))
+                    walks.append((ne, nes, pref, sides, straddle, outs))
             for r in ROSTER:
                 if not r["lin"] or e in ladder_only:
                     continue
@@ -422,7 +582,7 @@ def eval_scale(job: dict):
                 acc.nontriv.append((s["id"], gkey))
             # ---- UPGrad over the reg_eps ladder, part 2: the bound, per rung against that rung's reg_eps
             z0 = None
-            for ne, pref, sides, straddle, outs in walks:
+            for ne, nes, pref, sides, straddle, outs in walks:
                 # |v0| of the UNREGULARISED projection, needed by the derived bound (see module doc of c09):
                 # for diag(c) J the row-i projection weights are  c_i u_i D^-1 z0(e_i),  z0(e_i) = weights of the
                 # projection of row i of the well-scaled integer base matrix (oracle: reg_eps -> 0 there)
@@ -444,7 +604,7 @@ def eval_scale(job: dict):
                 for walk, order in [(w, [10.0 ** -k for k in s["ladder"][w]]) for w in ("down", "up")]:
                     prev = None
                     for reg in order:
-                        vname = f"UPGrad(pref={'P' if pref else 'None'},norm_eps={ne:g},reg_eps={reg:g},walk={walk})"
+                        vname = f"UPGrad(pref={'P' if pref else 'None'},norm_eps={nes if ne == 0 else f'{ne:g}'},reg_eps={reg:g},walk={walk})"
                         xs = outs[walk, reg]
                         if only and only != vname:
                             continue
